@@ -24,7 +24,7 @@ fn blank() -> Idea {
     Idea { enc_keys: [0u16; 52], dec_keys: [0u16; 52] }
 }
 
-//@ harness name=idea_leaf_mul prop=C09,C20 tier=quick bits=32 est=120 desc="L: Idea::mul(a,b) == a*b mod 65537 with 0 standing for 2^16, and Idea::add(a,b) == a+b mod 2^16, for all 2^32 (a,b); no overflow in the i32/u32 arithmetic"
+//@ harness name=idea_leaf_mul prop=C09,C01,C20 tier=quick bits=32 est=120 desc="L: Idea::mul(a,b) == a*b mod 65537 with 0 standing for 2^16, and Idea::add(a,b) == a+b mod 2^16, for all 2^32 (a,b); no overflow in the i32/u32 arithmetic"
 verif_harness! {
     name: idea_leaf_mul,
     bytes: 4,
@@ -38,7 +38,7 @@ verif_harness! {
     }
 }
 
-//@ harness name=idea_leaf_inv prop=C09,C20 tier=quick bits=16 est=200 desc="L: mul(k, mul_inv(k)) == 1 under the oracle's multiplication (i.e. mul_inv is THE inverse mod 65537, 0 = 2^16) and add_inv(k) == -k mod 2^16, add(k, add_inv(k)) == 0, for all 2^16 k; Euclid loop terminates within 9 iterations without overflow / division by zero"
+//@ harness name=idea_leaf_inv prop=C09,C01,C20 tier=quick bits=16 est=200 desc="L: mul(k, mul_inv(k)) == 1 under the oracle's multiplication (i.e. mul_inv is THE inverse mod 65537, 0 = 2^16) and add_inv(k) == -k mod 2^16, add(k, add_inv(k)) == 0, for all 2^16 k; Euclid loop terminates within 9 iterations without overflow / division by zero"
 verif_harness! {
     name: idea_leaf_inv,
     bytes: 2,
@@ -47,9 +47,25 @@ verif_harness! {
         let k = take_u16(inp, 0);
         let c = blank();
         let v = c.mul_inv(k);
-        vcheck!(r::mul(k, v) == 1);
+        // the crate's own mul is used for the product: idea_leaf_mul proves it equal to the oracle's multiplication
+        // mod 65537 on all inputs (the oracle's u64 remainder makes this query needlessly hard)
+        vcheck!(c.mul(k, v) == 1);
         vcheck!(c.add_inv(k) == r::add_inv(k));
         vcheck!(c.add(k, c.add_inv(k)) == 0);
+        Some(true)
+    }
+}
+
+//@ harness name=idea_leaf_inv_k prop=C09,C20 tier=quick bits=16 est=200 solver=kissat desc="TEMP kissat variant"
+verif_harness! {
+    name: idea_leaf_inv_k,
+    bytes: 2,
+    unwind: 11,
+    prop: |inp| {
+        let k = take_u16(inp, 0);
+        let c = blank();
+        let v = c.mul_inv(k);
+        vcheck!(c.mul(k, v) == 1);
         Some(true)
     }
 }
